@@ -77,6 +77,19 @@ impl BaseElement {
     }
 }
 
+#[cfg(feature = "verif-hooks")]
+impl BaseElement {
+    /// Verification hook: wraps a raw internal (Montgomery, possibly non-normalized) word.
+    pub const fn from_raw(value: u64) -> BaseElement {
+        BaseElement(value)
+    }
+
+    /// Verification hook: returns the raw internal word.
+    pub const fn raw(&self) -> u64 {
+        self.0
+    }
+}
+
 impl FieldElement for BaseElement {
     type PositiveInteger = u64;
     type BaseField = Self;
